@@ -27,7 +27,7 @@ def parse_create(op: str):
     if kind in ('once', 'countdown'):
         arg = int(t[4].rstrip(')'))
     ef = [] if t[-2] == '-' else [int(x) for x in t[-2].split(',')]
-    tf = [] if t[-1] == '-' else [int(x) for x in t[-1].split(',')]
+    tf = [] if t[-1] == '-' else [int(x) for x in t[-1].split(',') if not x.startswith('p')]
     return h, key, kind, arg, ef, tf
 
 
